@@ -53,8 +53,8 @@ Inductive c05case :=
       (c_lo c_hi : Z)                                   (* wall-clock window, Unix seconds *)
       (c_batches : list (list (datagram * obs_dg) * obs_batch))
 | LexSeq (q_table : list (str * pfres)) (q_steps : list lexstep)    (* ONE real lexer, line after line *)
-| Recv (r_ns : str) (r_table : list (str * pfres)) (r_ip : str)
-       (r_sent : list str)                       (* the datagrams written to the socket, in order *)
+| Recv (r_ns : str) (r_table : list (str * pfres))
+       (r_sent : list (str * str))               (* (rendered sender, datagram) handed to the receiver, in order *)
        (r_maps : list (list entry))              (* every MetricMap the handler was given, any order *)
        (r_events : list event)                   (* every event the handler was given, any order *)
        (r_ctr : counters).                       (* the parsers' counters at the end *)
@@ -159,6 +159,7 @@ Fixpoint check_steps (t : list (str * pfres)) (st : lexstate) (steps : list lexs
 (* ---- real receiver + parser(s) under sustained traffic: how the receiver cuts the stream into
    batches and which parser takes which batch is free, so the comparison is over the merge of all
    dispatched maps (MetricMap.merge_maps, timestamps zeroed, timer values as multisets) against
+   (every datagram with the rendering of ITS OWN sender as source: the model takes that string as input)
    Receive folded over the metrics of all sent datagrams; events as multisets; counter totals *)
 Fixpoint zinsert (x : Z) (l : list Z) : list Z :=
   match l with [] => [x] | y :: r => if (x <=? y)%Z then x :: l else y :: zinsert x r end.
@@ -189,8 +190,8 @@ Fixpoint events_perm (a b : list event) : bool :=
   | x :: r => match remove_event x b with Some b' => events_perm r b' | None => false end
   end.
 
-Definition recv_model (t : list (str * pfres)) (ns ip : str) (sent : list str) : option (mmap * list event * counters) :=
-  match parse_all (oracle t) (Cfg ns false) (map (fun m => Dg ip 0 m) sent) with
+Definition recv_model (t : list (str * pfres)) (ns : str) (sent : list (str * str)) : option (mmap * list event * counters) :=
+  match parse_all (oracle t) (Cfg ns false) (map (fun '(ip, m) => Dg ip 0 m) sent) with
   | DgOk r => Some (receive_all empty_map (dg_metrics r), dg_events r,
                     Ctr (N.of_nat (length (dg_metrics r))) (dg_nevents r) (dg_bad r))
   | _ => None
@@ -199,9 +200,9 @@ Definition recv_model (t : list (str * pfres)) (ns ip : str) (sent : list str) :
 Definition wellformed_dump (es : list entry) : bool :=
   (length es =? length (entries (map_of_entries es)))%nat.
 
-Definition check_recv (t : list (str * pfres)) (ns ip : str) (sent : list str)
+Definition check_recv (t : list (str * pfres)) (ns : str) (sent : list (str * str))
            (maps : list (list entry)) (evs : list event) (ctr : counters) : bool :=
-  match recv_model t ns ip sent with
+  match recv_model t ns sent with
   | None => false
   | Some (expect, mevs, mctr) =>
       let got := merge_maps (map (fun es => map_of_entries (map zero_ts es)) maps) in
@@ -215,7 +216,7 @@ Definition check_case (c : c05case) : bool :=
   match c with
   | C05 ns ignore table lo hi batches => check_batches table (Cfg ns ignore) lo hi (Ctr 0 0 0) batches
   | LexSeq table steps => check_steps table zero_state steps
-  | Recv ns table ip sent maps evs ctr => check_recv table ns ip sent maps evs ctr
+  | Recv ns table sent maps evs ctr => check_recv table ns sent maps evs ctr
   end.
 
 (* what the model computed, for failing cases *)
@@ -246,8 +247,8 @@ Definition explain_case (c : c05case) : c05explain :=
          end) batches)
   | LexSeq table steps =>
       XSeq (run_lines (oracle table) zero_state (map (fun x => (st_ns x, st_pool x, st_line x)) steps))
-  | Recv ns table ip sent maps evs ctr =>
-      XRecv (match recv_model table ns ip sent with
+  | Recv ns table sent maps evs ctr =>
+      XRecv (match recv_model table ns sent with
              | Some (m, e, c) => Some (map norm_entry (entries m), e, c) | None => None end)
             (map norm_entry (entries (merge_maps (map (fun es => map_of_entries (map zero_ts es)) maps))))
   end.
